@@ -100,6 +100,8 @@ func c17Classify(c *vlib.Case) (bool, []string) {
 }
 
 var oasSeeds = []string{
+	"JSIGHT 0.3\nGET /shelves/{id}/books/{ID}\n  200 any\nDELETE /shelves/{id}/books/{ID}\n  204 empty\nURL /s/{Id}/{iD}\n  Path\n    {\"iD\": 1}\n  GET\n    200 any\n",
+	"JSIGHT 0.3\nGET /a\n  200\n    {\"a\": 1}\n  200 empty\n  200 any\n  404 // nf\n    {\"e\": 1} // the error\n  404 any\n",
 	"JSIGHT 0.3\nTYPE @a empty\nGET /a\n  200 @a\n",
 	"JSIGHT 0.3\nTYPE @a any\nGET /a\n  200 @a\n",
 	"JSIGHT 0.3\nTYPE @r regex\n  /ab+/\nGET /a/{id}\n  Path\n    {\"id\": @r}\n  200 [@r]\n",
